@@ -174,6 +174,10 @@ class FinishOffsetCb:
                 self.log.cb_offsets.append((self.log.now(), self.dev_id, self.offset, self.log.serial()))
 
 
+class HarnessError(Exception):
+    """Raised on purpose by workload callbacks / deciders (user code failing inside an event)."""
+
+
 class World:
     """The light object graph that probes deep-copy: system + devices."""
 
@@ -226,6 +230,16 @@ class ScriptAction:
                 if new not in ups:
                     dev.set_upstream(ups + [new])
                     out = 'added'
+            elif kind == 'rewire_bad':
+                # a connection change the library must refuse; the caller catches the error and carries on
+                ups = dev.upstream
+                bad = dev if op['bad'] == 'self' else 'not a device'
+                new = {'bad_first': [bad] + ups, 'bad_only': [bad], 'bad_last': ups[:1] + [bad]}[op['form']]
+                try:
+                    dev.set_upstream(new)
+                    out = 'accepted'
+                except (TypeError, AssertionError, RuntimeError) as e:
+                    out = 'refused:' + type(e).__name__
             elif kind == 'rewire_remove':
                 # the documented way to change connections: read the list, edit it, set it again
                 ups = dev.upstream
